@@ -57,7 +57,7 @@ Definition violations (known : bool) (c : case) : list N :=
     | (QApply s m, AApply (inl route)) =>
         match parse s, find_unapply s route c with
         | inl p, Some r =>
-            let is_known := known_name_escape p || known_not_uri_clean p in
+            let is_known := known_not_uri_clean p in
             let ok := match r with
                       | Some m' => lossy_of s route c || map_eqb m' (restrict m (params_of p))
                       | None => false
@@ -68,7 +68,7 @@ Definition violations (known : bool) (c : case) : list N :=
     | (QAmb s t, AAmb false) =>
         match parse s, parse t with
         | inl p, inl q =>
-            let is_known := known_literal_escape p || known_literal_escape q in
+            let is_known := false in
             let both := existsb (fun u => match find_unapply s u c, find_unapply t u c with
                                           | Some (Some _), Some (Some _) => true
                                           | _, _ => false end) (uris_of c) in
